@@ -23,6 +23,7 @@ THEOREMS = [
     "PyTrie.Props.Raw.set_refines",
     "PyTrie.Props.Raw.delete_refines",
     "PyTrie.Props.Raw.keccak_is_std",
+    "PyTrie.Props.Raw.history_root_is_yellow_paper",
 ]
 RULE = ("histories as for C01 (4 configurations) with values aimed at the 31/32/33-byte embedding boundary of leaf, "
         "extension and branch encodings; after every operation root_hash and the body stored under it are compared "
@@ -81,6 +82,7 @@ def run_case(case):
 
     r = hexlib.HexRunner(res, case["prune"], observe, raw_tie=True)
     r.run(case["ops"])
+    r.finish_raw(sorted(r.model)[:6])
     # final: body under the root, node-length statistics, order independence on the real code
     if r.model:
         body = r.db.get(r.trie.root_hash)
